@@ -4,6 +4,7 @@ package main
 // evaluated over the symbolic state with Go's own machine semantics.
 
 import (
+	"sort"
 	"fmt"
 	"go/ast"
 	"go/constant"
@@ -827,6 +828,31 @@ func (e *Env) callExpr(ex *ast.CallExpr, hint types.Type) Val {
 		case "off":
 			a := e.eval(ex.Args[0], nil)
 			return Val{T: intT, S: c.fromIdx(intT, sOff(a.S))}
+		case "local": // local(name, k): the k-th local variable called name, in source order (for names declared in several scopes)
+			id2, ok1 := ex.Args[0].(*ast.Ident)
+			lit, ok2 := ex.Args[1].(*ast.BasicLit)
+			if !ok1 || !ok2 || e.x == nil {
+				e.fail("local(name, k): bad arguments")
+			}
+			k, _ := strconv.Atoi(lit.Value)
+			var cands []*ssa.Alloc
+			for _, a := range e.x.allocByPos {
+				if a.Comment == id2.Name {
+					cands = append(cands, a)
+				}
+			}
+			sort.Slice(cands, func(i, j int) bool { return cands[i].Pos() < cands[j].Pos() })
+			if k < 1 || k > len(cands) {
+				e.fail("local(%s, %d): only %d such locals", id2.Name, k, len(cands))
+			}
+			a := cands[k-1]
+			cv, ok := e.st.cells[e.x.cellKey(a)]
+			et := a.Type().(*types.Pointer).Elem()
+			if !ok || cv.S == "" {
+				// not assigned on this path: an arbitrary value
+				return Val{T: et, S: c.freshSort("dead_"+id2.Name, c.sortOf(et))}
+			}
+			return Val{T: et, S: cv.S}
 		case "fresh": // fresh(x): reference allocated since the old state
 			a := e.eval(ex.Args[0], nil)
 			r := a.S
